@@ -69,12 +69,22 @@ def recoverEng (s : Eng) : Eng :=
       | .ok s2 => { s2 with locks := s2.locks.unlockAll i }
       | .error _ => { s1 with locks := s1.locks.unlockAll i }
 
+/-- `unsetRemoteHaltLock(…, writeLocked = true)`: journal rollback + checkpoint, then the local
+    reference is cleared -/
+def unsetRemoteHalt (s : Eng) : Eng :=
+  let s1 := match Recovery.rollbackJournal s with | .ok x => x | .error _ => s
+  let s2 := match checkpointNoLock s1 with | .ok x => x | .error _ => s1
+  { s2 with remoteHalt := false }
+
 /-- `processLTXStreamFrame`: create the database if needed, skip a file this node created itself
     and still has (its position covers it), otherwise the lock bracket / position check / write /
     apply of `receiveLTX` -/
 def deliver (s : Eng) (self : Nat) (f : LTXFile) : Eng × Bool :=
   let s := if s.hasDB then s else { s with hasDB := true, dbFile := some ByteArray.empty }
   if f.nodeID = self ∧ self ≠ 0 ∧ s.posTxid ≥ f.maxTxid then (s, true) else
+  -- a file arriving while the node still holds a remote halt lock: the lock is stale; recover under
+  -- the write lock the frame handler holds (ce31c5d) and forget it
+  let s := if s.remoteHalt then unsetRemoteHalt s else s
   match receiveLTX s f with
   | .ok s' => (s', true)
   | .error (s', _) => (s', false)
@@ -96,5 +106,27 @@ def session (p : Eng) (pid : Nat) (r : Eng) (rid : Nat) : Nat → Nat × Chk →
     | .file f =>
       let (r', ok) := deliver r rid f
       if ok && r'.exit = 0 then session p pid r' rid fuel (f.maxTxid, f.post) else (r', false)
+
+end LiteFSVerif.Cluster
+
+namespace LiteFSVerif.Cluster
+open LiteFSVerif LiteFSVerif.Cks
+
+/-- `AcquireHaltLock` on the primary at the level of the lock record: a request with the id of
+    the lock currently granted answers that lock; otherwise a new lock is granted at the current
+    position if the write lock could be taken -/
+def haltGrant (cur : Option (Int × (Nat × Chk))) (id : Int) (pos : Nat × Chk) (writeLockFree : Bool) :
+    Option (Int × (Nat × Chk)) × Option (Int × (Nat × Chk)) :=
+  match cur with
+  | some (cid, cpos) =>
+    if cid = id then (cur, some (cid, cpos))
+    else if writeLockFree then (some (id, pos), some (id, pos)) else (cur, none)
+  | none => if writeLockFree then (some (id, pos), some (id, pos)) else (none, none)
+
+/-- `ReleaseHaltLock(id)`: only the current lock's id releases it -/
+def haltRelease (cur : Option (Int × (Nat × Chk))) (id : Int) : Option (Int × (Nat × Chk)) :=
+  match cur with
+  | some (cid, _) => if cid = id then none else cur
+  | none => none
 
 end LiteFSVerif.Cluster
